@@ -265,7 +265,9 @@ func (r *apiRun) do(c apiCall, obs *[]string) string {
 		if !valid {
 			r.flags.invalidIdx = true
 		}
-		isNil := gw == nil || fmt.Sprintf("%p", gw) == "0x0"
+		// the interface value itself must be nil: a nil pointer wrapped in a non-nil
+		// interface compares unequal to nil in the caller and panics on the first query
+		isNil := gw == nil
 		if valid == isNil {
 			return fmt.Sprintf("%s with %d warriors: returned nil=%v", name, len(r.b.Ws), isNil)
 		}
@@ -608,7 +610,7 @@ func rawDo(sim gmars.Simulator, own *[]gmars.Warrior, c apiCall, m int) (obs str
 			sim.Reset()
 		case kGetWarrior:
 			w := sim.GetWarrior(idx(c.I))
-			obs = fmt.Sprint("nil:", w == nil || fmt.Sprintf("%p", w) == "0x0")
+			obs = fmt.Sprint("nil:", w == nil)
 		case kGetMem:
 			obs = fmt.Sprint(sim.GetMem(gmars.Address(c.Off)))
 		default:
